@@ -88,7 +88,8 @@ def cases(draw):
             'seed': draw(st.integers(0, 99)),
             # bundle processing control flags of the original (some assigned ones, and reserved / unassigned bits, which
             # a node carries through unchanged): the reassembled bundle has them all again
-            'flags': draw(st.sampled_from([0, 0, 0x40, 0x20, 0x080000, 0x200040, (1 << 40) | 0x40, 0x2000]))}
+            # (0x04 "must not be fragmented" on fragments: nothing makes such fragments here, another node's may carry it)
+            'flags': draw(st.sampled_from([0, 0, 0x40, 0x20, 0x080000, 0x200040, (1 << 40) | 0x40, 0x2000, 0x04, 0x44]))}
 
 
 def stack_cases():
